@@ -130,7 +130,7 @@ class ImplementationClassUIDSubItem(object):
         :return decoded maximum length sub-item
         """
         _, reserved, item_length = cls.header.unpack(stream.read(4))
-        implementation_class_uid = uid.UID(stream.read(item_length).decode())
+        implementation_class_uid = uid.UID(stream.read(item_length).decode('ascii'))
         return cls(reserved=reserved, implementation_class_uid=implementation_class_uid)
 
 
@@ -191,7 +191,7 @@ class ImplementationVersionNameSubItem(object):
         :return decoded Implementation Version Name sub-item
         """
         _, reserved, item_length = cls.header.unpack(stream.read(4))
-        implementation_version_name = stream.read(item_length).decode()
+        implementation_version_name = stream.read(item_length).decode('ascii')
         return cls(implementation_version_name=implementation_version_name,
                    reserved=reserved)
 
@@ -325,7 +325,7 @@ class ScpScuRoleSelectionSubItem(object):
         :return decoded SCP/SCU Role Selection sub-item
         """
         _, reserved, _, uid_length = cls.header.unpack(stream.read(6))
-        sop_class_uid = uid.UID(stream.read(uid_length).decode())
+        sop_class_uid = uid.UID(stream.read(uid_length).decode('ascii'))
         scu_role, scp_role = struct.unpack('B B', stream.read(2))
         return cls(reserved=reserved, sop_class_uid=sop_class_uid,
                    scu_role=scu_role, scp_role=scp_role)
@@ -387,7 +387,7 @@ class SOPClassExtendedNegotiationSubItem(object):
         :return: new sub-item
         """
         _, reserved, item_length, uid_length = cls.header.unpack(stream.read(6))
-        sop_class_uid = uid.UID(stream.read(uid_length).decode())
+        sop_class_uid = uid.UID(stream.read(uid_length).decode('ascii'))
         # item length covers two bytes of SOP Class UID length field, UID itself and application info
         app_info_length = item_length - uid_length - 2
         app_info = stream.read(app_info_length)
